@@ -35,7 +35,7 @@ func (c06) Info() core.Info {
 
 func (c06) Plan(tier string) core.Plan { return core.Plan{Shards: 16} }
 
-var lawNames = []string{"L1", "L2", "L3", "L4", "L4-opaque", "L5", "L6"}
+var lawNames = []string{"L1", "L2", "L3", "L4", "L4-opaque", "L5", "L6", "L1-config"}
 
 func (m c06) Run(ctx *core.Ctx) {
 	r := ctx.Rng
@@ -51,7 +51,7 @@ func (m c06) Run(ctx *core.Ctx) {
 		}
 		var ref string
 		switch law {
-		case "L1", "L6":
+		case "L1", "L6", "L1-config":
 			ref = gen.Reference(r)
 		case "L2":
 			ref = gen.Input(r) // the URL u to be parsed first
@@ -75,6 +75,22 @@ func (m c06) Run(ctx *core.Ctx) {
 		// 0 fresh, 1 SearchParams() read, 2 getters + Clone read, 3 an earlier resolution,
 		// 4 earlier results mutated by their owner
 		cs := &core.Case{Check: law, Base: core.S(base), HasBase: true, Input: core.S(ref), N: r.IntN(5)}
+		if law == "L1-config" {
+			// parser options only: a canonicalization profile post-processes the result of ITS ParseRef, while
+			// the URL value it returns resolves with the plain parser - those two legitimately differ
+			cs.Config = nil
+			for _, o := range randomConfig(r) {
+				if _, isCanon := optionForIsCanon(o); !isCanon {
+					cs.Config = append(cs.Config, o)
+				}
+			}
+			if len(cs.Config) == 0 {
+				cs.Config = []string{"collapse"}
+			}
+			if r.IntN(3) == 0 {
+				cs.Base = core.S(gen.Pick(r, []string{"http://h//a//b/", "gopher://h:70/x/y", "http://a b/c", "http://h/%/x", "file:///C|/a/b", "http://ex<ample/x/"}))
+			}
+		}
 		ctx.Begin(cs)
 		m.Exec(ctx, cs)
 	}
@@ -154,6 +170,36 @@ func (c06) Exec(ctx *core.Ctx, cs *core.Case) {
 	}
 	law := cs.Check
 	ctx.Count("law:" + law)
+	if law == "L1-config" {
+		// for ANY parser value: p.ParseRef(base, ref) == p.Parse(base) followed by .Parse(ref)
+		p := buildParser(cs.Config)
+		u1, e1, p1 := parseImpl(ctx, p, ref, base, true, false)
+		u2, e2, p2 := parseImpl(ctx, p, ref, base, true, true)
+		if p1 != nil || p2 != nil {
+			ctx.Count("panic(C02)")
+			return
+		}
+		ok1, ok2 := e1 == nil && u1 != nil, e2 == nil && u2 != nil
+		if ok1 || ok2 {
+			ctx.Nontrivial()
+		}
+		if ok1 != ok2 {
+			// a profile's default-scheme retry applies to ParseRef's base only: not a disagreement of the parser
+			for _, c := range cs.Config {
+				if strings.HasPrefix(c, "defaultscheme") {
+					return
+				}
+			}
+			ctx.Violate("L1: Parser.ParseRef and Parser.Parse(base).Parse(ref) disagree on success for a configured parser", ok1, ok2, strings.Join(cs.Config, ","))
+			return
+		}
+		if ok1 {
+			if s1, s2 := obs.Take(u1), obs.Take(u2); s1 != s2 {
+				ctx.Violate("L1: Parser.ParseRef and Parser.Parse(base).Parse(ref) disagree for a configured parser", s1.Href, s2.Href, strings.Join(cs.Config, ",")+": "+strings.Join(obs.Diff(s1, s2), "; "))
+			}
+		}
+		return
+	}
 	switch law {
 	case "L1":
 		u1, e1, p1 := parseImpl(ctx, nil, ref, base, true, false)
